@@ -9,4 +9,5 @@ package hmac
 //@   safety C04 C07
 //@   props C04 C07
 //@   pure
-//@   ensures result <==> bytes_eq(mac1, mac2)
+//@   ensures result ==> bytes_eq(mac1, mac2)
+//@   ensures bytes_eq(mac1, mac2) ==> result
